@@ -41,7 +41,7 @@ FLOORS = {"accepted": 0.08, "rejected": 0.4, "split_answer": 0.2}
 
 MAJORS = [0, 1, 2, 3, 4, 2**32 - 1]
 API_NAMES = ["", "dev", "other", "Dev"]
-NOISE_NAMES = [None, "dev", "other", ""]
+NOISE_NAMES = [None, "dev", "other", "", "other\x00AABBCCDDEEFF", "dev\x00AABBCCDDEEFF"]
 ORDERS = ["hc", "ch", "hh", "h", "c"]
 
 
@@ -53,6 +53,8 @@ def decide(c: dict):
     exp = c.get("expected")
     if c["noise"]:
         nn = c.get("noise_name")
+        if nn is not None:
+            nn = nn.split("\x00", 1)[0]  # newer firmware appends further NUL-terminated fields (MAC) after the name
         if nn is not None and exp is not None and nn != exp:
             return False, {"BadNameAPIError"}, "noise-name"
     hello_seen_in_time = "h" in order if not login else order in ("hc",)
@@ -178,7 +180,7 @@ def run_case(c: dict) -> CaseResult:
             elif "*any*" not in classes_ok and outcome not in classes_ok:
                 res.violations.append(Violation(ID, f"c06:error-class:{outcome}-expected-{'|'.join(sorted(classes_ok))}", f"{c}: {exc!r}"))
             if outcome == "BadNameAPIError":
-                want_names = {c["api_name"]} | ({c.get("noise_name")} if noise else set())
+                want_names = {c["api_name"]} | ({(c.get("noise_name") or "").split("\x00", 1)[0] if c.get("noise_name") is not None else None} if noise else set())
                 if getattr(exc, "received_name", None) not in want_names:
                     res.violations.append(Violation(ID, "c06:bad-name-without-received-name", repr(exc)))
             if outcome == "APIConnectionError" and "APIConnectionError" in classes_ok and str(c["major"]) not in str(exc):
